@@ -87,7 +87,10 @@ def route_sessions(tier: str, seed: int, kinds, wd):
     recs, meta = [], []
     for kind in kinds:
         hist = cr.history_messages(rng)
-        msgs = [claim_message(s) for s in (10, 11, 12)] + hist[:4] + [claim_message(40)] + hist[4:]
+        # (two frames whose data contain the serial protocol's start marker: intact packets on a clean link are delivered all the same)
+        marked = [("raw", 127250, 10, 255, 2, bytes([0xAA, 0x55, 0x20, 0x00, 0x00, 0x00, 0x00, 0xFC])),
+                  ("raw", 127250, 0xAA, 255, 2, bytes([0x07, 0xAA, 0x55, 0x00, 0x00, 0x00, 0x00, 0xFC]))]
+        msgs = [claim_message(s) for s in (10, 11, 12, 0xAA)] + hist[:4] + marked[:1] + [claim_message(40)] + hist[4:] + marked[1:]
         packets = cr.wire_packets(kind, msgs, rng, with_bad=False)
         stream = b"".join(p for p, _ in packets)
         n = len(stream)
